@@ -407,6 +407,108 @@ class DirectoryMembers(Job):
         return None
 
 
+class ReceiveDirectoryDrop(Job):
+    """a DIRECTORY offer whose data connection is lost at a solver-chosen point (or not at all): the real _parse_offer -> _handle_directory ->
+    _transfer_data (-> _write_directory -> _close_transit).  The zip is spooled in an anonymous temporary file, so on a failed transfer NOTHING in the
+    file system may have been touched - in particular not the unrelated file <dirname>.tmp that happens to sit next to the destination - and no
+    success/ack is reported; on success only entries beneath the destination are written."""
+    name = "receive_directory_drop"
+    functions = ["cli.cmd_receive.Receiver._parse_offer/_handle_directory/_transfer_data/_write_directory/_close_transit", "transit.Connection consumer mode"]
+    shadows = ReceiveFile.shadows + ["cmd_receive.tempfile / zipfile (recorders, C05)"]
+    must_reach = ("nt:success", "nt:dropped-short")
+    bounds = dict(records=2, record_len="symbolic integer >= 0 each", zipsize="symbolic integer >= 0", loss="after any number of records, or never",
+                  sandbox="cwd /w containing the bystander file g.tmp; offered directory name g")
+
+    def run(self, X, lens, lose_after, blobs=None):
+        from harness import c05
+        log = []
+        fs = c05.FS()
+        fs.mut = log
+        conn, sent = mk_conn()
+        spooled = []
+
+        def spool(max_size=0):
+            f = TmpFile(log, "<spooled>")
+            spooled.append(f)
+            return f
+        c05.FakeZipFile.fs = fs
+        c05.FakeZipFile.members = ["m"]
+        args = SimpleNamespace(relay_url="ws://x", output_file=None, cwd="/w", accept_file=True, stderr=io.StringIO(), stdout=io.StringIO(),
+                               timing=DebugTiming(), hide_progress=True)
+        r = CR.Receiver(args)
+        r._transit_receiver = SimpleNamespace(connect=lambda: defer.succeed(conn))
+        wsent = []
+        w = SimpleNamespace(send_message=wsent.append)
+        sh = [(CR, "os", c05.make_os(fs)), (CR, "open", lambda *a, **k: TmpFile(log, "<open>")), (CR, "estimate_free_space", lambda p: None),
+              (CR, "naturalsize", lambda n: "N"), (CR, "tqdm", FakeTqdm), (CR, "hashlib", SimpleNamespace(sha256=Hasher)), (CR, "bytes_to_hexstr", lambda h: "hex-of-hash"),
+              (CR, "print", lambda *a, **k: None), (T, "len", sym_len), (CR, "len", sym_len), (CR, "isinstance", V.sym_isinstance),
+              (CR, "tempfile", SimpleNamespace(SpooledTemporaryFile=spool)), (CR, "zipfile", SimpleNamespace(ZipFile=c05.FakeZipFile)), (CR, "repr", lambda x: "<repr>")]
+        result = []
+        with loader.shadow(*sh):
+            d = r._parse_offer({"directory": {"mode": "zipfile/deflated", "dirname": "g", "zipsize": X, "numbytes": 10, "numfiles": 1}}, w)
+            d.addCallbacks(lambda res: result.append(("ok", res)), lambda f: result.append(("err", f.type.__name__)))
+            for i, L in enumerate(lens):
+                if lose_after is not None and i == lose_after:
+                    break
+                if conn._consumer is None and conn.state == "records" and result:
+                    break
+                rec = (blobs[i] if blobs is not None else SymRope.of_blob(Blob("rec%d" % i, L.t if isinstance(L, SymInt) else L)))
+                conn.recordReceived(rec)
+            if lose_after is not None:
+                conn.connectionLost(failure.Failure(error.ConnectionDone()))
+        return dict(result=result, log=log, sent=sent, wsent=wsent)
+
+    def problems(self, o):
+        res, log = o["result"], o["log"]
+        S = lambda p: "".join(p.c) if hasattr(p, "c") and all(isinstance(x, str) for x in p.c) else p      # noqa: E731
+        muts = [(op, S(p)) for (op, p) in log if op not in ("close",)]
+        if res and res[0][0] == "ok":
+            for op, p in muts:
+                if not (isinstance(p, str) and (p == "/w/g" or p.startswith("/w/g/"))):
+                    return "successful directory transfer touched %r (%s), which is not beneath the destination /w/g" % (p, op)
+            return None
+        if muts:
+            return "failed directory transfer touched the file system: %r" % (muts[:3],)
+        if o["sent"]:
+            return "acknowledgement sent although the directory transfer did not succeed"
+        return None
+
+    def scenario(self):
+        X = fresh_int("zipsize", 0)
+        lens = [fresh_int("len%d" % i, 0) for i in range(2)]
+        la = eng().choose(4, "lose_after")
+        lose_after = None if la == 3 else la
+        eng().inputs.update(zipsize=X, lose_after=-1 if lose_after is None else lose_after, len0=lens[0], len1=lens[1])
+        try:
+            o = self.run(X, lens, lose_after)
+        except (core.Escape, core.Inconclusive, core._Abort, core.Counterexample):
+            raise
+        except AssertionError:
+            eng().note("nt:overshoot-asserted")
+            return
+        p = self.problems(o)
+        check(p is None, p or "")
+        res = o["result"]
+        eng().note("nt:success" if (res and res[0][0] == "ok") else ("nt:dropped-short" if res else "nt:waiting"))
+
+    def key(self, inp, label):
+        return label.split(":")[0][:70]
+
+    def replay(self, inp, label):
+        lens = [inp["len0"], inp["len1"]]
+        if sum(lens) > (1 << 24) or inp["zipsize"] > (1 << 24):
+            return None
+        lose_after = None if inp["lose_after"] < 0 else inp["lose_after"]
+        try:
+            o = self.run(inp["zipsize"], lens, lose_after, blobs=[bytes([65 + i]) * L for i, L in enumerate(lens)])
+        except AssertionError:
+            return None
+        p = self.problems(o)
+        if p:
+            return "directory offer 'g' (zipsize %d), records %r, lost after %r: %s" % (inp["zipsize"], lens, lose_after, p)
+        return None
+
+
 class WireSamples(Job):
     """CONCRETE SAMPLES, not solver-decided (json is C code the engine cannot enter): text messages and offered names travel from the real
     Sender._build_offer/_send_data through the real util.dict_to_bytes / bytes_to_dict into the real Receiver._parse_offer: the text printed is exactly
@@ -492,7 +594,7 @@ class WireSamples(Job):
 
 def jobs(tier):
     thorough = tier == "thorough"
-    return [ReceiveFile(n) for n in ((1, 2, 3, 4) if thorough else (1, 2, 3))] + [SenderAck(), DirectoryMembers(), WireSamples()]
+    return [ReceiveFile(n) for n in ((1, 2, 3, 4) if thorough else (1, 2, 3))] + [SenderAck(), DirectoryMembers(), WireSamples(), ReceiveDirectoryDrop()]
 
 
 ASSUMPTIONS = [
